@@ -55,6 +55,44 @@ def instance_isolation(ctx, g):
         mine.codecs.update(saved)
 
 
+def after_failed_encode(ctx, g):
+    """A save that fails part-way through a table (a later element of the wrong type, out of range, of an unknown inner type) leaves
+    nothing behind: the next tables written by the process are exactly the documented encoding of their values."""
+    import io
+    IRm = gtirb_from_repo.msg("IR")
+    bad_tables = [([-1, (1 << 63) - 1, "three"], "sequence<int64_t>"), ({"a": 1, "b": 1 << 70}, "mapping<string,uint8_t>"),
+                  ([[1, 2], [3, "x"]], "sequence<sequence<uint16_t>>"), ([1, 2, 3], "sequence<zz_unknown>"), (("s", 2.5), "tuple<string,uint32_t>")]
+    good = [([1, 2, 3], "sequence<uint16_t>", (3).to_bytes(8, "little") + b"\x01\0\x02\0\x03\0"), ("ok", "string", (2).to_bytes(8, "little") + b"ok"),
+            (7, "int64_t", (7).to_bytes(8, "little"))]
+    for bv, bt in bad_tables:
+        ir = g.IR()
+        m = g.Module(name="m", ir=ir)
+        m.aux_data["bad"] = g.AuxData(bv, bt)
+        try:
+            ir.save_protobuf_file(io.BytesIO())
+            failed = False
+        except Exception:  # noqa: BLE001
+            failed = True
+        ctx.count("failed_saves" if failed else "bad_table_saved_anyway")
+        del m.aux_data["bad"]
+        for k, (v, tn, want) in enumerate(good):
+            (ir if k % 2 else m).aux_data["g%d" % k] = g.AuxData(v, tn)
+        ctx.case("after-failed-encode:" + bt, True)
+        try:
+            buf = io.BytesIO()
+            ir.save_protobuf_file(buf)
+            p = IRm()
+            p.ParseFromString(buf.getvalue()[8:])
+        except Exception as e:  # noqa: BLE001
+            ctx.add("oracle", "bytes-differ-from-format", "after a save that failed on a %s table, saving well-typed tables raises %s" % (bt, exc_name(g, e)), {"type_name": bt})
+            continue
+        for k, (v, tn, want) in enumerate(good):
+            e = (p if k % 2 else p.modules[0]).aux_data["g%d" % k]
+            if bytes(e.data) != want or e.type_name != tn:
+                ctx.add("oracle", "bytes-differ-from-format", "after a save that failed part-way through a %s table, the %s table %r is written as %s; the format prescribes %s"
+                        % (bt, tn, v, bytes(e.data).hex(), want.hex()), {"type_name": tn, "bytes": bytes(e.data).hex(), "failed_table": bt})
+
+
 def run(ctx):
     g = gtirb_from_repo.load()
     n = 1500 if ctx.quick else 25000
@@ -137,6 +175,7 @@ def run(ctx):
             ctx.count("java_leg_unavailable")
     ctx.cov["traces_validated_against_impl"] = len(meta) + len(nc_bytes)
     instance_isolation(ctx, g)
+    after_failed_encode(ctx, g)
     import codec_cases as _cc
     for _k, _v in _cc.FORMS.items():
         ctx.count("encode_value_form:" + _k, _v)
